@@ -131,7 +131,9 @@ impl<'a> FnTr<'a> {
                 }
                 if tp.path.segments.len() == 1 {
                     if let Some(t) = self.tparams.get(&name) {
-                        return Ok(t.clone());
+                        if !matches!(t, Ty::Int(_)) {
+                            return Ok(t.clone());
+                        }
                     }
                 }
                 // builder L: `heapless::Vec<T, CAP>` — a list with a capacity
@@ -144,7 +146,11 @@ impl<'a> FnTr<'a> {
                                 let cap = match args[1] {
                                     GenericArgument::Type(Type::Path(cp)) => {
                                         let cn = cp.path.segments.last().unwrap().ident.to_string();
-                                        self.reg.consts.get(&cn).map(|(_, l)| l.clone()).ok_or(format!("Vec capacity {} is not a known constant", cn))?
+                                        if matches!(self.tparams.get(&cn), Some(Ty::Int(_))) {
+                                            cn.clone()
+                                        } else {
+                                            self.reg.consts.get(&cn).map(|(_, l)| l.clone()).ok_or(format!("Vec capacity {} is not a known constant", cn))?
+                                        }
                                     }
                                     GenericArgument::Const(Expr::Lit(ExprLit { lit: Lit::Int(i), .. })) => i.base10_digits().to_string(),
                                     _ => return Err("unsupported Vec capacity".into()),
@@ -900,6 +906,19 @@ impl<'a> FnTr<'a> {
         let mut params = vec![];
         self.muts = vec![];
         // builder L: `M: Trait` where the unit models `Trait` as a struct of its observable methods
+        // builder N: const generic parameters (`const D: usize`): known while the parameter types are read; one
+        // that is the capacity of a `heapless::Vec` parameter becomes a leading parameter of the Lean function
+        let mut cgen: Vec<String> = vec![];
+        for gp in &sig.generics.params {
+            if let GenericParam::Const(c) = gp {
+                if let Type::Path(tp) = &c.ty {
+                    if let Some(it) = tp.path.get_ident().and_then(|i| int_ty(&i.to_string())) {
+                        self.tparams.insert(c.ident.to_string(), Ty::Int(it));
+                        cgen.push(c.ident.to_string());
+                    }
+                }
+            }
+        }
         for gp in &sig.generics.params {
             if let GenericParam::Type(tp) = gp {
                 for b in &tp.bounds {
@@ -940,6 +959,14 @@ impl<'a> FnTr<'a> {
                     env.insert(name.clone(), t.clone());
                     params.push((name, t));
                 }
+            }
+        }
+        for cg in cgen.iter().rev() {
+            let used = params.iter().any(|(_, t)| matches!(t, Ty::HVec(_, cap) if cap == cg));
+            if used {
+                let t = self.tparams.get(cg).cloned().unwrap();
+                env.insert(cg.clone(), t.clone());
+                params.insert(0, (cg.clone(), t));
             }
         }
         let ret = match &sig.output {
@@ -1185,6 +1212,23 @@ impl<'a> FnTr<'a> {
                     // (a bound error value is not put in scope: code that reads it does not translate)
                     // builder N: `Err(_)` of a `Result` translated as an `Option` (the error value is not bound)
                     Ok("none".into())
+                } else if ts.path.segments.len() >= 2 {
+                    // builder N: a variant with a payload of an enum the unit models (`EnumData`)
+                    let n = ts.path.segments.len();
+                    let (en, vn) = (ts.path.segments[n - 2].ident.to_string(), ts.path.segments[n - 1].ident.to_string());
+                    let en = if en == "Self" { self.self_ty.clone().unwrap_or_default() } else { en };
+                    if !matches!(ty, Ty::Named(tn) if *tn == en) {
+                        return Err(format!("pattern {} on {:?}", name, ty));
+                    }
+                    let tys = self.reg.enum_data.get(&en).and_then(|vs| vs.iter().find(|(v, _)| *v == vn)).map(|(_, t)| t.clone()).ok_or(format!("unsupported tuple-struct pattern {}", name))?;
+                    if tys.len() != ts.elems.len() {
+                        return Err(format!("pattern {}: arity", name));
+                    }
+                    let mut ps = vec![];
+                    for (e, t) in ts.elems.iter().zip(tys.iter()) {
+                        ps.push(paren(&self.pat(e, t, env)?));
+                    }
+                    Ok(format!(".{} {}", lean_ident(&vn), ps.join(" ")))
                 } else {
                     Err(format!("unsupported tuple-struct pattern {}", name))
                 }
@@ -1707,7 +1751,13 @@ impl<'a> FnTr<'a> {
                         _ => return Err("tuple struct literal".into()),
                     };
                     let fty = fields.iter().find(|(n, _)| *n == fname).ok_or("unknown field")?.1.clone();
-                    let (a, _) = self.ex(&fv.expr, env, st, Some(fty))?;
+                    let (a, ta) = self.ex(&fv.expr, env, st, Some(fty.clone()))?;
+                    // builder N: a heapless vector stored in a field must have the field's capacity
+                    if let (Ty::HVec(_, c1), Ty::HVec(_, c2)) = (&ta, &fty) {
+                        if c1 != c2 {
+                            return Err(format!("field {}: heapless::Vec capacity {} stored in a field of capacity {}", fname, c1, c2));
+                        }
+                    }
                     parts.push(format!("{} := {}", lean_ident(&fname), a));
                 }
                 if s.rest.is_some() {
@@ -2265,6 +2315,12 @@ fn contains_return(e: &Expr) -> bool {
             self.0 = true;
         }
         fn visit_item_fn(&mut self, _: &'ast ItemFn) {}
+        // builder N: statements of features the harness does not build with are not there
+        fn visit_stmt(&mut self, s: &'ast Stmt) {
+            if !stmt_cfg_disabled(s) {
+                syn::visit::visit_stmt(self, s);
+            }
+        }
     }
     let mut v = V(false);
     syn::visit::visit_expr(&mut v, e);
